@@ -178,7 +178,12 @@ func runC03(t *testing.T, seed uint64, m *Mask) *Report {
 			x.key = world.SessKey(x.sess)
 			simrt.GoNamed(fmt.Sprintf("rawreader%d", s), func() {
 				for {
-					msg := x.raw.Read()
+					var msg world.RawMsg
+					if proto == "thrift-struct" {
+						msg, _ = x.raw.ReadPayload() // this protocol decodes the struct while framing
+					} else {
+						msg = x.raw.Read()
+					}
 					if msg.Err != nil {
 						x.readEnd = true
 						return
